@@ -121,6 +121,71 @@ def target(name):
     return getattr(T, name)
 
 
+def _walk_exc(e, seen):
+    if e is None or id(e) in seen:
+        return
+    seen.add(id(e))
+    yield e
+    for s in getattr(e, "exceptions", ()) or ():
+        yield from _walk_exc(s, seen)
+    yield from _walk_exc(e.__cause__, seen)
+    yield from _walk_exc(e.__context__, seen)
+
+
+def _reachable_unions(t, seen, out):
+    """union types reachable from annotation t (through classes, sequences, dicts, tuples, union members)"""
+    if isinstance(t, typing.ForwardRef):
+        t = T.ALL_TYPES_MAP.get(t.__forward_arg__, t)
+    o = typing.get_origin(t)
+    if o is typing.Union:
+        if t in out:
+            return
+        out.append(t)
+        for a in typing.get_args(t):
+            _reachable_unions(a, seen, out)
+    elif o in (collections.abc.Sequence, list, dict, tuple):
+        for a in typing.get_args(t):
+            if a is not Ellipsis:
+                _reachable_unions(a, seen, out)
+    elif isinstance(t, type) and attrs.has(t) and t not in seen:
+        seen.add(t)
+        for a in attrs.fields(t):
+            _reachable_unions(a.type, seen, out)
+
+
+def no_handler(e, target_name):
+    """union types without a structure handler that the failure of this case is due to (pty strings): the type_ of every
+    StructureHandlerNotFoundError in the exception tree; for cattrs' own 'no usable non-default attributes' TypeError (raised while
+    it builds a disambiguator, the union is not named) the reachable unions for which get_structure_hook raises."""
+    import pyty
+    import cattrs.errors
+    out = []
+    probe = False
+    for x in _walk_exc(e, set()):
+        if isinstance(x, cattrs.errors.StructureHandlerNotFoundError):
+            try:
+                out.append(pyty.ty(x.type_))
+            except Exception:
+                pass
+        elif isinstance(x, TypeError) and "no usable non-default attributes" in str(x):
+            probe = True
+    if probe:
+        us = []
+        try:
+            _reachable_unions(target(target_name), set(), us)
+        except Exception:
+            us = []
+        for u in us:
+            try:
+                conv.get_structure_hook(u)
+            except Exception:
+                try:
+                    out.append(pyty.ty(u))
+                except Exception:
+                    pass
+    return sorted(set(out))
+
+
 def main():
     req = json.load(sys.stdin)
     res = []
@@ -129,7 +194,7 @@ def main():
             t = target(c["target"])
             o = conv.structure(c["input"], t)
         except BaseException as e:  # noqa
-            res.append({"ok": False, "err": type(e).__name__, "msg": str(e)[:160]})
+            res.append({"ok": False, "err": type(e).__name__, "msg": str(e)[:160], "no_handler": no_handler(e, c["target"])})
             continue
         r = {"ok": True, "dump": dump(o)}
         errs = []
